@@ -23,7 +23,7 @@ local notation "R" => Cfg.rv v
   unfold St.dropOwn; split <;> rfl
 theorem dropOwn_reg (s : St) (k c k') :
     (s.dropOwn k c).reg k' = if k' = k ∧ s.reg k = some c then none else s.reg k' := by
-  unfold St.dropOwn; split <;> simp_all [setReg_reg]
+  unfold St.dropOwn St.setReg; split <;> simp_all
 
 @[simp] theorem setConn_conns (s : St) (c k c') : (s.setConn c k).conns c' = if c' = c then k else s.conns c' := rfl
 @[simp] theorem setConn_reg (s : St) (c k) : (s.setConn c k).reg = s.reg := rfl
@@ -220,9 +220,6 @@ theorem finish_deferred_ne (s c c') (h : c' ≠ c) : ((finish s c).1.conns c').d
 theorem finish_up (s c c') : ((finish s c).1.conns c').up = if c' = c then true else (s.conns c').up := by
   rw [finish_conns]; split <;> simp_all [finConn]
 
-end Pox.Conn
-
-namespace Pox.Conn
 
 theorem St.ext' {a b : St} (h1 : a.n = b.n) (h2 : a.nextXid = b.nextXid) (h3 : ∀ c, a.conns c = b.conns c)
     (h4 : ∀ k, a.reg k = b.reg k) : a = b := by
@@ -289,7 +286,13 @@ theorem step_elim (s : St) (op : Op) (hs : SInv s) (P : St × List Out → Prop)
     (upHelloBroken : ∀ c, c < s.n → (s.conns c).disc = false → (s.conns c).up = true → op = .msg c .hello →
         (s.conns c).broken = true → P (disconnect R { s with nextXid := s.nextXid + 1 } c true))
     (upFeatures : ∀ c d, c < s.n → (s.conns c).disc = false → (s.conns c).up = true → op = .msg c (.featuresReply d) →
+        v = false ∨ (s.conns c).dpid = some d →
         P ((s.setConn c { s.conns c with dpid := some d }).setReg (some d) (some c), .reg (some d) c :: ev2 .features c 0))
+    -- C09-5 repaired (`v`): a features reply naming another datapath id first drops the connection's own old entry
+    (upFeaturesMove : ∀ c d, c < s.n → (s.conns c).disc = false → (s.conns c).up = true → op = .msg c (.featuresReply d) →
+        v = true → (s.conns c).dpid ≠ some d →
+        P (((s.dropOwn (s.conns c).dpid c).setConn c { s.conns c with dpid := some d }).setReg (some d) (some c),
+           .reg (some d) c :: ev2 .features c 0))
     (echo : ∀ c x, c < s.n → (s.conns c).disc = false → op = .msg c (.echoRequest x) →
         (s.conns c).broken = false → P (s, [.sent c OFPT_ECHO_REPLY x]))
     (echoBroken : ∀ c x, c < s.n → (s.conns c).disc = false → op = .msg c (.echoRequest x) →
@@ -367,13 +370,27 @@ theorem step_elim (s : St) (op : Op) (hs : SInv s) (P : St × List Out → Prop)
       by_cases hb : (s.conns c0).broken = true
       · cases m with
         | hello => simpa [dispatchUp, sendObj, sendRaw, h3', hb] using upHelloBroken c0 h1' h3' h4 rfl hb
-        | featuresReply d => simpa [dispatchUp] using upFeatures c0 d h1' h3' h4 rfl
+        | featuresReply d =>
+          by_cases hmv : v = true ∧ (s.conns c0).dpid ≠ some d
+          · simpa [dispatchUp, hmv.1, hmv.2] using upFeaturesMove c0 d h1' h3' h4 rfl hmv.1 hmv.2
+          · have hh : v = false ∨ (s.conns c0).dpid = some d := by
+              cases v <;> simp_all
+            rcases hh with hh | hh
+            · simpa [dispatchUp, hh] using upFeatures c0 d h1' h3' h4 rfl (Or.inl hh)
+            · simpa [dispatchUp, hh] using upFeatures c0 d h1' h3' h4 rfl (Or.inr hh)
         | echoRequest x => simpa [dispatchUp, sendRaw, h3', hb] using echoBroken c0 x h1' h3' rfl hb
         | _ => simp only [dispatchUp, R_err, if_true]; exact upEvents c0 _ _ h1' h3' h4 rfl (by simp)
       · have hb' : (s.conns c0).broken = false := by simpa using hb
         cases m with
         | hello => simpa [dispatchUp, sendObj, sendRaw, h3', hb'] using upHello c0 h1' h3' h4 rfl hb'
-        | featuresReply d => simpa [dispatchUp] using upFeatures c0 d h1' h3' h4 rfl
+        | featuresReply d =>
+          by_cases hmv : v = true ∧ (s.conns c0).dpid ≠ some d
+          · simpa [dispatchUp, hmv.1, hmv.2] using upFeaturesMove c0 d h1' h3' h4 rfl hmv.1 hmv.2
+          · have hh : v = false ∨ (s.conns c0).dpid = some d := by
+              cases v <;> simp_all
+            rcases hh with hh | hh
+            · simpa [dispatchUp, hh] using upFeatures c0 d h1' h3' h4 rfl (Or.inl hh)
+            · simpa [dispatchUp, hh] using upFeatures c0 d h1' h3' h4 rfl (Or.inr hh)
         | echoRequest x => simpa [dispatchUp, sendRaw, h3', hb'] using echo c0 x h1' h3' rfl hb'
         | _ => simp only [dispatchUp, R_err, if_true]; exact upEvents c0 _ _ h1' h3' h4 rfl (by simp)
     have h4' : (s.conns c0).up = false := by simpa using h4
@@ -550,7 +567,7 @@ theorem disconnect_count_down (s : St) (c : Nat) (defer : Bool) (b : Bool) (c' :
   rw [disconnect_outs, disconnect_downRaised]
   by_cases hcc : c' = c
   · subst hcc
-    by_cases hr : ((s.conns c').dpid.isSome && (!R.fixDown || (s.conns c').up) && !(s.conns c').downRaised && !defer) = true
+    by_cases hr : ((s.conns c').dpid.isSome && (!(Cfg.rv v).fixDown || (s.conns c').up) && !(s.conns c').downRaised && !defer) = true
     · simp only [hr, if_true]
       have : (s.conns c').nexus = true := hn (by simp at hr; exact hr.1.1.1)
       have hdr : (s.conns c').downRaised = false := by simp at hr; exact hr.1.2
@@ -576,7 +593,7 @@ theorem down_count_step (s : St) (op : Op) (hs : SInv s) (b : Bool) (c' : Nat) :
   case close =>
     intro c _ _ _
     rw [close_outs, close_downRaised, List.count_append]
-    have := disconnect_count_down s c false b c' (hs.dpidNexus c)
+    have := disconnect_count_down (v := v) s c false b c' (hs.dpidNexus c)
     simp [downEv, List.count_cons] at this ⊢
     omega
   case disc =>
